@@ -36,9 +36,15 @@ class Parser(Emitter):
         finally:
             formulaserror.forget_tracebacks()
 
-        if isinstance(result, formulaserror.XLError):
+        single = result
+        for _ in range(2):
+            # a one-cell range ([[v]]) or one-item array holding an error is that error: it reaches
+            # the top as the error of the formula, not as a list with an error object inside
+            if isinstance(single, (list, tuple)) and len(single) == 1:
+                single = single[0]
+        if isinstance(single, formulaserror.XLError):
             # report the canonical code (a host may hand in an XLError of its own making)
-            error = str(formulaserror.from_message(result))
+            error = str(formulaserror.from_message(single))
             result = None
         return {'result': result, 'error': error}
 
